@@ -18,6 +18,7 @@ package zzverif
 
 import (
 	"context"
+	"sync"
 	"time"
 )
 
@@ -235,4 +236,51 @@ func Cancelled(ctx context.Context) bool {
 	default:
 		return false
 	}
+}
+
+// fireCtx is the native stand-in for a context whose deadline fires at a replayed
+// instant.
+type fireCtx struct {
+	mu   sync.Mutex
+	done chan struct{}
+	err  error
+}
+
+func (c *fireCtx) Deadline() (time.Time, bool) { return time.Now().Add(time.Hour), true }
+func (c *fireCtx) Done() <-chan struct{}       { return c.done }
+func (c *fireCtx) Value(interface{}) interface{} { return nil }
+func (c *fireCtx) Err() error {
+	c.mu.Lock()
+	defer c.mu.Unlock()
+	return c.err
+}
+func (c *fireCtx) fire(err error) {
+	c.mu.Lock()
+	defer c.mu.Unlock()
+	if c.err == nil {
+		c.err = err
+		close(c.done)
+	}
+}
+
+// EndableContext returns the caller's context of a cancellation harness together
+// with the environment event that ends it: a cancellation (an environment
+// goroutine calling cancel) or a deadline (the context model's timer). Under the
+// engine the event may happen at any scheduling point; natively it happens at the
+// replayed instant.
+func EndableContext(deadline bool) (context.Context, context.CancelFunc) {
+	if deadline {
+		if Symbolic() {
+			return context.WithTimeout(context.Background(), time.Hour)
+		}
+		c := &fireCtx{done: make(chan struct{})}
+		OnModelEvent("env:deadline-timer", func() { c.fire(context.DeadlineExceeded) })
+		return c, func() { c.fire(context.Canceled) }
+	}
+	ctx, cancel := context.WithCancel(context.Background())
+	GoEnv("canceller", func() {
+		EnvPoint("cancel-instant")
+		cancel()
+	})
+	return ctx, cancel
 }
